@@ -201,6 +201,13 @@ def conv_statement(lon, lat, poles_only=False):
     x, y, z = co.eq2xyz(lon, lat)
     if np.abs(x * x + y * y + z * z - 1).max() > 1e-14:
         return "unit length"
+    xs, ys, zs = co.eq2xyz(lon, lat, stomp=True)
+    ras, decs = co.xyz2eq(xs, ys, zs, stomp=True)
+    if np.abs(xs * xs + ys * ys + zs * zs - 1).max() > 1e-14 or true_sep(ras, decs, lon, lat)[np.abs(lat) < 89.9].max(initial=0.0) > 1e-9:
+        return "eq2xyz/xyz2eq round trip in the stomp convention"
+    xr, yr, zr = co.eq2xyz(np.deg2rad(lon), np.deg2rad(lat), units="rad")
+    if max(np.abs(xr - x).max(), np.abs(yr - y).max(), np.abs(zr - z).max()) > 1e-14:
+        return "eq2xyz radian units"
     ra, dec = co.xyz2eq(x, y, z)
     awayx = np.abs(lat) < 89.9
     if true_sep(ra, dec, lon, lat)[awayx].max(initial=0.0) > 1e-9 or not ((ra >= 0) & (ra <= 360)).all():
@@ -428,6 +435,9 @@ def sampler_statement(x, p, u):
     import esutil.random as er
     g = er.Generator(p, x=x, method="accum", rng=_StubRng(u))
     got = np.atleast_1d(g.sample(len(u)))
+    pf = p
+    if callable(p):
+        p = p(x)
     cum = np.concatenate([[0.0], np.cumsum((p[1:] + p[:-1]) * np.diff(x) / 2.0)])[1:]
     cum = cum / cum[-1]
     xv = x[1:]
@@ -440,6 +450,8 @@ def sampler_statement(x, p, u):
     order = np.argsort(u)
     if (np.diff(got[order]) < -1e-12 * max(1.0, np.abs(x).max())).any():
         return "not non-decreasing in u"
+    if callable(p):
+        return True
     g2 = er.Generator(p, x=x, method="accum", rng=_StubRng(cum))
     at = np.atleast_1d(g2.sample(len(cum)))
     if np.abs(at - xv).max() > 1e-9 * max(1.0, np.abs(x).max()):
@@ -466,6 +478,9 @@ def _dom_sampler(tier, seed):
         u = np.array(sorted(rng.random() for _ in range(30)) + [0.0, 1.0, 0.5])
         rng.shuffle(list(u))
         yield dict(call=(lambda: None), args=[], ghost=dict(x=x, p=p, u=u), key="n=%d" % n)
+        if rng.random() < 0.5:
+            a, b = rng.uniform(0.2, 2.0), rng.uniform(0.1, 1.0)
+            yield dict(call=(lambda: None), args=[], ghost=dict(x=x, p=(lambda t, a=a, b=b: a + b * np.cos(t) ** 2), u=u), key="functional density, uneven grid n=%d" % n)
 
 
 def cholesky_statement(cov, mean, n, seed):
